@@ -40,8 +40,24 @@ def gen_grid_sample(rng: random.Random, tier: str):
                 pts.append([rng.choice([-1.0, 1.0, 0.0, -0.5, 0.5]) for _ in range(d)])
             else:  # exactly on a sample (both conventions), exercises weight-0 corners and .5 ties
                 pts.append([rng.choice(special) for _ in range(d)])
+        ac = rng.random() < 0.5
+        if mode == "nearest":
+            # a random 4-decimal coordinate can be an exact tie in decimal arithmetic (x = -0.6 for n = 5) that is not
+            # representable in binary: which neighbour wins is then decided by float rounding (ties are outside every
+            # statement about nearest sampling). Such coordinates are moved off the tie; dyadic ties (exact in binary,
+            # rounded half-to-even by torch and the model alike) stay.
+            from fractions import Fraction
+            for pt in pts:
+                for k in range(d):
+                    n = shape[d - 1 - k]                      # coordinate k is x-first, shape is (..., Y, X)
+                    x = Fraction(str(pt[k]))
+                    idx = (x + 1) / 2 * (n - 1) if ac else ((x + 1) * n - 1) / 2
+                    tie = idx.denominator == 2                 # fractional part exactly 1/2
+                    exact_in_binary = Fraction(float(pt[k])) == x
+                    if tie and not exact_in_binary:
+                        pt[k] = round(pt[k] + 0.0137, 4)
         yield {"d": d, "shape": shape, "mode": mode,
-               "pad": rng.choice(["zeros", "border"]), "ac": rng.random() < 0.5,
+               "pad": rng.choice(["zeros", "border"]), "ac": ac,
                "seed": rng.randrange(1 << 30), "points": pts}
 
 
